@@ -144,6 +144,18 @@ Theorem C17_fields_rt_refuted :
 Proof. exact (conj fields_rt_hash_refuted fields_rt_dollar_brace_refuted). Qed.
 Print Assumptions C17_fields_rt_refuted.
 
+(* ---- the variables of the -uninstalled form ---- *)
+(* The section is srcdir=<source directory> and builddir=${pcfiledir} followed by one /.. per level of the .pc
+   directory below the build directory: the absolute build directory is not written (it is not even an input of
+   the section), and what pkgconf substitutes for builddir is - for EVERY value of pcfiledir, i.e. wherever the
+   build tree has been moved to - the directory of the .pc file being read followed by the way up *)
+Theorem C17_uninstalled_relocatable : forall uw srcdir depth,
+  uninstalled_vars uw srcdir depth =
+    STR "srcdir=" ++ srcdir ++ [c_nl] ++ STR "builddir=${pcfiledir}" ++ ups depth ++ [c_nl] /\
+  forall vars, pc_subst vars (builddir_value depth) = lookup vars (STR "pcfiledir") ++ ups depth.
+Proof. exact uninstalled_relocatable. Qed.
+Print Assumptions C17_uninstalled_relocatable.
+
 (* ---- PkgConfigInfo: which fields are auto-filled, and what the three flag fields hold ---- *)
 (* [a]: the arguments of one pkg_config() call, [ex]: install.explicit when the package is written.
    A list field given explicitly - the EMPTY list included - is stored as given (duplicates dropped) and is
@@ -258,6 +270,19 @@ Example C17_path_flag_ex :
     (write_each (fun _ => false) true [c_sp] [[FStr (STR "-I"); FPath (Some (STR "includedir")) (STR "a 'b")]])
   = Some [STR "-I/o p/include/a 'b"].
 Proof. vm_compute. reflexivity. Qed.
+
+(* the -uninstalled file read at two places: a library directory under the build directory is below the place *)
+Example C17_relocated_ex :
+  let flag := [[FStr (STR "-L"); FPath (Some (STR "builddir")) (STR "sub")]] in
+  let at_ d := [(STR "pcfiledir", d); (STR "builddir", pc_subst [(STR "pcfiledir", d)] (builddir_value 1))] in
+  uninstalled_vars (fun _ => false) (STR "/s r/c") 1 = STR "srcdir=/s r/c
+builddir=${pcfiledir}/..
+" /\
+  pc_field (at_ (STR "/b/pkgconfig")) (write_each (fun _ => false) true [c_sp] flag)
+    = Some [STR "-L/b/pkgconfig/../sub"] /\
+  pc_field (at_ (STR "/mo ved/b2/pkgconfig")) (write_each (fun _ => false) true [c_sp] flag)
+    = Some [STR "-L/mo ved/b2/pkgconfig/../sub"].
+Proof. repeat split; vm_compute; reflexivity. Qed.
 
 Example C17_order_inhabited : version_order str str_eqb sv_leb.
 Proof. exact (conj str_eqb_eq (conj sv_leb_total sv_leb_trans)). Qed.
